@@ -153,9 +153,9 @@ fn stream(bars: bool, len: usize, seed: u64) -> Vec<Op> {
 
 fn run_every_prefix(ctx: &Ctx) -> Report {
     let mut jobs = Vec::new();
-    let reps = ctx.pick(24u64, 360u64);
+    let reps = ctx.pick(24u64, 1500u64);
     for kind in ALL_KINDS {
-        let nmax = if kind.n_periods() == 0 { 1 } else { 8 };
+        let nmax = if kind.n_periods() == 0 { 1 } else { ctx.pick(8, 12) };
         for n in 1..=nmax {
             for bars in [false, true] {
                 if !bars && !kind.has_scalar() {
@@ -211,7 +211,7 @@ fn run_every_prefix(ctx: &Ctx) -> Report {
 }
 
 fn run_random(ctx: &Ctx) -> Report {
-    let njobs = ctx.pick(13200, 264000);
+    let njobs = ctx.pick(13200, 660000);
     let seed = ctx.seed;
     let maxops = ctx.pick(3000usize, 20000usize);
     let jobs: Vec<usize> = (0..njobs).collect();
